@@ -31,6 +31,7 @@ type BootCase struct {
 	Random      *RandomSpec     `json:"random"`
 	MaxSteps    int             `json:"max_steps"`
 	MaxChans    int             `json:"max_chans"`
+	ActivePanics bool           `json:"active_panics"` // a user handler panics in HandleActive, the exception handler keeps the connection
 }
 
 type BootChSt struct {
@@ -158,7 +159,17 @@ func (p bootProbe) HandleInactive(ctx netty.InactiveContext, ex netty.Exception)
 	ctx.HandleInactive(ex)
 }
 
+func (p bootProbe) HandleActive(ctx netty.ActiveContext) {
+	if p.w.c.ActivePanics {
+		panic(fmt.Errorf("active handler failed"))
+	}
+	ctx.HandleActive()
+}
+
 func (p bootProbe) HandleException(ctx netty.ExceptionContext, ex netty.Exception) {
+	if p.w.c.ActivePanics && ex != nil && ex.Error() == "active handler failed" {
+		return // the application keeps the connection
+	}
 	ctx.HandleException(ex)
 }
 
